@@ -426,9 +426,9 @@ func c18Run(rc *sim.RunCtx) {
 
 func c18Sizes(tier string) (programs, sampledRuns int) {
 	if tier == "thorough" {
-		return 400, 7000
+		return 1400, 40000
 	}
-	return 8, 40
+	return 24, 240
 }
 
 func init() {
